@@ -31,6 +31,14 @@ re-assembly.  Unit kinds:
           function results, ?:, comma and chained assignments), sizes around the byte-loop/memcpy and
           index-scale thresholds (1..9, 12..17, 31..33, 63..65, 127..129, 255..257, 300, 1000); the
           arrays are refilled before and hashed after every statement.
+  ncast   narrowing casts whose result is consumed DIRECTLY (no store to an object of the target type): one
+          source type per unit (float, double, long double and the integer types, cycled) to every target
+          narrower than long (signed/unsigned char, char, short, unsigned short, int, unsigned), values
+          at and around the target's sign boundary and range ends (2^(w-1)-1, 2^(w-1), 2^w-1, with
+          fractional parts for floating sources; wrapped values for integer sources), run-time
+          (volatile) and constant; the result feeds wider assignments, + * >> / - ~, comparisons, ?:
+          arms and conditions, &&, wider parameters, variadic arguments (printf / sprintf), switch,
+          array index and pointer arithmetic, floating arithmetic.
   fcexpr  constant folding across integer AND floating types: ?: && || ! comparisons casts unary and
           binary arithmetic with every mix of integer / float / double / long double operands, kept
           exact (dyadic values, results representable in the operation's type) so that evaluation
@@ -46,6 +54,10 @@ left shifts of negative values, uninitialised reads, aliasing through incompatib
 _Complex, _Atomic, _Thread_local, unbounded loops, inexact floating arithmetic, out-of-range
 floating-to-integer conversions, and conversions of values other than 0/1 to `_Bool` (known finding
 C07:bool-conversion, pinned by a corpus program instead)."""
+
+# signatures of known findings that still reproduce on the tree under test (filled by the check from the corpus
+# replays): the generator stays clear of exactly those constructs, and covers them again as soon as they are repaired
+AVOID = set()
 
 TY = {  # name: (C spelling, width, signed, rank)
     "bool": ("_Bool", 8, False, 0), "char": ("char", 8, True, 1), "schar": ("signed char", 8, True, 1),
@@ -368,6 +380,11 @@ static void mix (ull v) { chk = (chk ^ v) * 1099511628211ULL; }
 #define SMODU(T, a, b) ((b) == 0 ? (T) (a) : (T) ((a) % (b)))
 #define SSHL(T, UT, W, a, b) ((T) ((UT) (a) << ((b) & (W - 1))))
 #define SSHR(T, W, a, b) ((T) ((a) >> ((b) & (W - 1))))
+static ll wid_ (ll x) { return x; }
+static ull uwid_ (ull x) { return x; }
+static double dwid_ (double x) { return x; }
+static unsigned char big_[3 * 65536]; static int big_ready_;
+static unsigned char *mid_ (void) { int i; if (!big_ready_) { for (i = 0; i < 3 * 65536; i++) big_[i] = (unsigned char) (i * 7 + 3); big_ready_ = 1; } return big_ + 65536; }
 static void dump (const char *tag, const void *p, int n) {
   const unsigned char *b = (const unsigned char *) p; int i;
   printf ("%s", tag);
@@ -609,14 +626,21 @@ class Gen:
 
     # ------------------------------------------------------------------ initialisers
     def agg_type(self, depth, name):
-        """returns (decl text list, type spelling, tree) ; tree = ('s', [(member, sub)]) | ('a', n, sub) | ('i', ctype) | ('u', [...])"""
+        """returns (decl text list, type spelling, tree) ; tree = ('s', [(member, sub)]) | ('a', n, sub) | ('i', ctype) | ('u', [...]) | ('c', n, chartype)"""
         r = self.r
         mems, decls = [], []
         nm = 2 + r.below(4)
         for i in range(nm):
             c = r.below(10)
             m = "m%d" % i
-            if c < 5 or depth == 0:
+            if r.chance(1, 5):      # character array (initialised by string literals)
+                t = r.choice(["char", "char", "schar", "uchar"]); n = 1 + r.below(7)
+                if depth > 0 and r.chance(1, 4):
+                    k = 1 + r.below(3)
+                    mems.append((m, ("a", k, ("c", n, t)), "%s %s[%d][%d];" % (cspell(t), m, k, n)))
+                else:
+                    mems.append((m, ("c", n, t), "%s %s[%d];" % (cspell(t), m, n)))
+            elif c < 5 or depth == 0:
                 t = r.choice(TNAMES[1:])
                 mems.append((m, ("i", t), "%s %s;" % (cspell(t), m)))
             elif c < 7:
@@ -641,8 +665,12 @@ class Gen:
         r = self.r
         if tr[0] == "i":
             return clit(tr[1], self.val(tr[1]))
+        if tr[0] == "c":
+            return self.str_init(tr[1])
         if tr[0] == "a":
             n = tr[1]
+            if tr[2][0] in ("i", "c") and r.chance(1, 5):      # complete brace elision: exactly n elements, no braces
+                return ", ".join(self.agg_init(tr[2], False) if tr[2][0] == "i" else self.str_init(tr[2][1], bare=True) for _ in range(n))
             items, pos, need = [], 0, False
             for _ in range(n + 2):
                 if pos >= n: break
@@ -678,9 +706,32 @@ class Gen:
                 items.append(self.agg_init(mems[i][1], override)); done.add(i); i += 1
         return "{ %s }" % ", ".join(items) if items else "{ 0 }"
 
+    def str_lit(self, L):
+        r = self.r
+        return '"%s"' % "".join(r.choice(["\\n", "\\\\", '\\"', "\\101", "\\0"]) if r.chance(1, 12)
+                                else chr(r.choice([65, 97]) + r.below(26)) for _ in range(L))
+
+    def str_init(self, n, bare=False):
+        """initialiser of a character array of n elements: string literal (shorter, exact fit without the
+        terminating NUL), the same in braces, a list of character constants, a designated list"""
+        r = self.r
+        c = r.below(10)
+        L = n if r.chance(1, 3) else r.below(n + 1)
+        if c < 5 or bare:
+            return self.str_lit(L)
+        if c < 7:
+            return "{ %s }" % self.str_lit(L)
+        if c < 9:
+            return "{ %s }" % (", ".join("'%s'" % chr(97 + r.below(26)) for _ in range(max(1, L))))
+        k = r.below(n)
+        return "{ [%d] = '%s'%s }" % (k, chr(97 + r.below(26)), ", %d" % r.below(100) if k + 1 < n else "")
+
     def agg_print(self, tr, path, tag, out):
         if tr[0] == "i":
             out.append('  %s ("%s", %s);' % ("PS" if signed(tr[1]) else "PU", tag, path))
+        elif tr[0] == "c":
+            for i in range(tr[1]):
+                out.append('  %s ("%s[%d]", %s[%d]);' % ("PS" if signed(tr[2]) else "PU", tag, i, path, i))
         elif tr[0] == "a":
             for i in range(tr[1]):
                 self.agg_print(tr[2], "%s[%d]" % (path, i), "%s[%d]" % (tag, i), out)
@@ -698,8 +749,11 @@ class Gen:
         for k in range(2):
             glob.append("static %s %s_g%d = %s;" % (sp, name, k, self.agg_init(tr, True)))
             self.agg_print(tr, "%s_g%d" % (name, k), "%s.g%d" % (name, k), body)
+            body.append('  dump ("%s.g%db", &%s_g%d, (int) sizeof (%s_g%d));' % (name, k, name, k, name, k))
+        self.auto_ctx = True
         body.insert(0, "  %s l0 = %s;\n  %s l1 = %s;\n  %s arr[2] = { [1] = %s };" % (
             sp, self.agg_init(tr, True), sp, self.agg_init(tr, True), sp, self.agg_init(tr, False)))
+        self.auto_ctx = False
         self.agg_print(tr, "l0", name + ".l0", body)
         self.agg_print(tr, "l1", name + ".l1", body)
         self.agg_print(tr, "arr[0]", name + ".a0", body)
@@ -708,6 +762,40 @@ class Gen:
         self.agg_print(tr, "l0", name + ".c0", body)
         self.agg_print(tr, "l1", name + ".c1", body)
         body.append('  PS ("%s.size", (int) sizeof (l0));' % name)
+        # string tables: arrays of unknown bound of character arrays / of records that start with one
+        r = self.r
+        K = 1 + r.below(6)
+        rows = [self.str_init(K) for _ in range(1 + r.below(4))]
+        if r.chance(1, 3):
+            rows += ["'%s'" % chr(97 + r.below(26)), "0"][:1 + r.below(2)]      # brace-elided scalars open one more row
+        glob.append("static %s %s_st[][%d] = { %s };" % (r.choice(["char", "unsigned char", "signed char"]), name, K, ", ".join(rows)))
+        body.append('  dump ("%s.st", %s_st, (int) sizeof (%s_st));' % (name, name, name))
+        K1, K2 = 1 + r.below(6), 1 + r.below(4)
+        t1, t2 = r.choice(TNAMES[1:]), r.choice(TNAMES[1:])
+        rt = "struct %s_rt { char tag[%d]; %s v; unsigned char s2[%d]; %s w; }" % (name, K1, cspell(t1), K2, cspell(t2))
+        recs = []
+        self.auto_ctx = True       # the same list initialises an automatic copy below
+        for _ in range(1 + r.below(3)):
+            c = r.below(4)
+            if c == 0:
+                recs.append("{ %s, %s, %s, %s }" % (self.str_init(K1), clit(t1, self.val(t1)), self.str_init(K2), clit(t2, self.val(t2))))
+            elif c == 1:
+                recs.append("{ .tag = %s, .w = %s }" % (self.str_init(K1), clit(t2, self.val(t2))))
+            elif c == 2:
+                recs.append("{ %s, %s, .w = %s }" % (self.str_init(K1, bare=True), clit(t1, self.val(t1)), clit(t2, self.val(t2))))
+            else:
+                recs.append("%s, %s, %s, %s" % (self.str_init(K1, bare=True), clit(t1, self.val(t1)), self.str_init(K2, bare=True), clit(t2, self.val(t2))))
+        self.auto_ctx = False
+        glob.append("%s;" % rt)
+        glob.append("static struct %s_rt %s_rg[] = { %s };" % (name, name, ", ".join(recs)))
+        body.append('  dump ("%s.rg", %s_rg, (int) sizeof (%s_rg));' % (name, name, name))
+        body.append("  { struct %s_rt rl[] = { %s }; int i_, j_;" % (name, ", ".join(recs)))
+        body.append('    PS ("%s.rl.n", (int) (sizeof (rl) / sizeof (rl[0])));' % name)
+        body.append("    for (i_ = 0; i_ < (int) (sizeof (rl) / sizeof (rl[0])); i_++) {")
+        body.append('      for (j_ = 0; j_ < %d; j_++) PS ("%s.rl.tag", rl[i_].tag[j_]);' % (K1, name))
+        body.append('      for (j_ = 0; j_ < %d; j_++) PS ("%s.rl.s2", rl[i_].s2[j_]);' % (K2, name))
+        body.append('      %s ("%s.rl.v", rl[i_].v); %s ("%s.rl.w", rl[i_].w); } }' % (
+            "PS" if signed(t1) else "PU", name, "PS" if signed(t2) else "PU", name))
         text = "\n".join(glob) + "\nstatic void %s (void) {\n%s\n}\n" % (name, "\n".join(body))
         return {"name": name, "kind": "init", "text": text, "expect": {}, "lean": [], "info": ""}
 
@@ -1068,12 +1156,9 @@ class Gen:
                 P(t2), tag, mt, to_cx(e2, lambda l: flit(l[1], l[2])), P(t), tag, to_cx(e2, lambda l: flit(l[1], l[2])), ct))
             expect[tag + ".k"] = v2
             expect[tag + ".k2"] = v
-            if not isf(t) and promote(t) == t:      # narrower types: known finding C07:generic-no-promotion (corpus)
+            if not isf(t):
                 body.append('  PS ("%s.t", TYPEID (%s) * 100 + (int) sizeof (%s));' % (tag, ct, mt))
                 expect[tag + ".t"] = TNAMES.index(t) * 100 + width(t) // 8
-            elif not isf(t):
-                body.append('  PS ("%s.t", (int) sizeof (%s) * 100 + (int) sizeof (%s));' % (tag, ct, mt))
-                expect[tag + ".t"] = width(t) // 8 * 101
             else:
                 body.append('  PS ("%s.t", (int) sizeof (%s) * 100 + (int) sizeof (%s));' % (tag, ct, rt))
                 sz = {"float": 4, "double": 8, "ldouble": 16}[t]
@@ -1174,6 +1259,111 @@ class Gen:
 
 
 
+    # ------------------------------------------------------------------ narrowing casts consumed directly
+    NCAST_SRC = ["float", "double", "ldouble", "int", "uint", "long", "ulong", "llong", "ullong", "short", "ushort"]
+    NCAST_DST = ["schar", "uchar", "char", "short", "ushort", "int", "uint"]
+
+    def ncast_values(self, S, T):
+        r = self.r
+        w = width(T)
+        lo, hi = tmin(T), tmax(T)
+        half = 1 << (w - 1)
+        if isf(S):
+            base = ([half - 1, half, hi, half + 1, 0, hi - 1] if not signed(T) else [hi, lo, -1, half >> 1, lo + 1, 0])
+            out = []
+            for b in base:
+                fr = Fraction(r.choice([0, 1, 2, 3]), 4)
+                v = Fraction(b) + (fr if b >= 0 else -fr)
+                if b == 0 and r.chance(1, 2): v = -Fraction(r.choice([1, 2, 3]), 4)
+                cand = None
+                for c in (v, Fraction(b)):
+                    if representable(c, S):
+                        cand = c
+                        break
+                if cand is None:       # clear low bits until the source type can hold it (float and 32-bit targets)
+                    k, a = 1, abs(b)
+                    while not representable(Fraction(a - a % (1 << k)), S): k += 1
+                    cand = Fraction(a - a % (1 << k)) * (1 if b >= 0 else -1)
+                if lo - 1 < cand < hi + 1 and cand not in out:
+                    out.append(cand)
+            return out
+        full = 1 << w
+        cands = [half - 1, half, full - 1, full, full + half, -1, -half, -half - 1, half + 1 + r.below(50), r.next()]
+        out = []
+        for c in cands:
+            v = conv(S, c)
+            if v not in out: out.append(v)
+        return out[:4] + [out[4 + r.below(len(out) - 4)]] if len(out) > 5 else out
+
+    def unit_ncast(self, src_index):
+        r = self.r
+        name = self.uname()
+        S = self.NCAST_SRC[src_index % len(self.NCAST_SRC)]
+        glob, body, expect = [], [], {}
+        glob.append("static volatile int %s_one = 1, %s_zero = 0;" % (name, name))
+        n = 0
+        for T in self.NCAST_DST:
+            for v in self.ncast_values(S, T):
+                try:
+                    e = fconv(T, S, v)
+                except (UB, Inexact):
+                    continue
+                var = "%s_v%d" % (name, n)
+                glob.append("static volatile %s %s = %s;" % (xspell(S), var, flit(S, v)))
+                L = ("lit", T, e)
+                pt = promote(T)
+                pe = conv(pt, e)
+                bound = (1 << (width(T) - 1)) - 1 if width(T) < 32 else 0
+                first = not any(k.startswith("%s.T%s." % (name, T)) for k in expect)
+                expect["%s.T%s.%d" % (name, T, n)] = None
+                for mode, X in (("r", "((%s) %s)" % (cspell(T), var)), ("c", "((%s) %s)" % (cspell(T), flit(S, v))))[:2 if first else 1]:
+                    tag = "%s.%d.%s" % (name, n, mode)
+                    ctx = []        # (suffix, statement, expected)
+                    ctx.append(("w", '{ ll w_ = %s; PS ("%s.w", w_); }' % (X, tag), e))
+                    ctx.append(("uw", '{ ull w_ = %s; PU ("%s.uw", w_); }' % (X, tag), conv("ullong", e)))
+                    ctx.append(("i", '{ int w_ = %s; unsigned u_ = %s; PS ("%s.i", w_); PU ("%s.iu", u_); }' % (X, X, tag, tag), conv("int", e)))
+                    expect[tag + ".iu"] = conv("uint", e)
+                    ctx.append(("d", '{ double w_ = %s; PF ("%s.d", w_); }' % (X, tag), e))
+                    for sfx, tree, txt in (("a1", ("bin", "add", L, ("lit", "int", 1)), "%s + 1" % X),
+                                           ("m2", ("bin", "mul", L, ("lit", "long", 2)), "%s * 2L" % X),
+                                           ("s1", ("bin", "rsh", L, ("lit", "int", 1)), "%s >> 1" % X),
+                                           ("d3", ("bin", "div", L, ("lit", "int", 3)), "%s / 3" % X),
+                                           ("ng", ("un", "neg", L), "-%s" % X),
+                                           ("nt", ("un", "bnot", L), "~%s" % X),
+                                           ("ul", ("bin", "add", L, ("lit", "ulong", 0)), "%s + 0UL" % X),
+                                           ("gt", ("cmp", "gt", L, ("lit", "int", bound)), "%s > %s" % (X, clit("int", bound))),
+                                           ("lt", ("cmp", "lt", L, ("lit", "int", 0)), "%s < 0" % X),
+                                           ("eq", ("cmp", "eq", L, ("lit", pt, pe)), "%s == %s" % (X, clit(pt, pe))),
+                                           ("lc", ("cmp", "le", L, ("lit", "long", e)), "%s <= %s" % (X, clit("long", e))),
+                                           ("q1", ("cond", ("lit", "int", 1), L, ("lit", "long", 0)), "%s_one ? %s : 0L" % (name, X)),
+                                           ("q2", ("cond", ("lit", "int", 0), ("lit", "int", 0), L), "%s_zero ? 0 : %s" % (name, X)),
+                                           ("q3", ("cond", L, ("lit", "int", 5), ("lit", "int", 6)), "%s ? 5 : 6" % X),
+                                           ("la", ("land", L, ("lit", "int", 1)), "%s && %s_one" % (X, name))):
+                        try:
+                            rt_, rv = ceval(tree)
+                        except UB:
+                            continue
+                        ctx.append((sfx, '%s ("%s.%s", %s);' % ("PS" if signed(rt_) else "PU", tag, sfx, txt), rv))
+                    ctx.append(("fa", 'PF ("%s.fa", %s + 0.5);' % (tag, X), Fraction(e) + Fraction(1, 2)))
+                    ctx.append(("wd", 'PS ("%s.wd", wid_ (%s)); PU ("%s.uwd", uwid_ (%s)); PF ("%s.dwd", dwid_ (%s));' % (tag, X, tag, X, tag, X), e))
+                    expect[tag + ".uwd"] = conv("ullong", e)
+                    expect[tag + ".dwd"] = e
+                    fmt = "%u" if pt == "uint" else "%d"
+                    ctx.append(("va", 'printf ("%s.va %s\\n", %s); { char b_[60]; sprintf (b_, "%s%s", %s, %s); printf ("%s.vb %%s\\n", b_ + (b_[0] == \'-\')); }'
+                                % (tag, fmt, X, fmt, fmt, X, X, tag), pe))
+                    ctx.append(("sw", 'switch (%s) { case %s: PS ("%s.sw", 1); break; default: PS ("%s.sw", 0); }' % (X, clit(pt, pe), tag, tag), 1))
+                    if width(T) <= 16:
+                        ctx.append(("ix", 'PS ("%s.ix", mid_ ()[%s]); PS ("%s.ip", *(mid_ () + %s));' % (tag, X, tag, X), ((e + 65536) * 7 + 3) & 255))
+                        expect[tag + ".ip"] = ((e + 65536) * 7 + 3) & 255
+                    for sfx, st, ev in ctx:
+                        body.append("  " + st)
+                        expect[tag + "." + sfx] = ev
+                n += 1
+        expect = {k: v for k, v in expect.items() if v is not None}
+        text = "\n".join(glob) + "\nstatic void %s (void) {\n%s\n}\n" % (name, "\n".join(body))
+        return {"name": name, "kind": "ncast", "text": text, "expect": expect, "lean": [], "info": S}
+
+
 def assemble(units):
     src = [PRELUDE]
     for u in units:
@@ -1188,8 +1378,8 @@ def assemble(units):
 def gen_program(rng, index, pair_cursor):
     """one program: a mix of units; `pair_cursor` walks through the 144 type pairs"""
     g = Gen(rng)
-    kinds = [["conv", "conv", "cexpr", "ctrl", "fcexpr"], ["bitf", "bitf", "init", "cexpr", "saddr"],
-             ["scopy", "calls", "ctrl", "conv", "fcexpr"], ["conv", "bitf", "calls", "init", "saddr"]][index % 4]
+    kinds = [["conv", "conv", "cexpr", "ctrl", "fcexpr"], ["bitf", "bitf", "init", "cexpr", "saddr", "ncast"],
+             ["scopy", "calls", "ctrl", "conv", "fcexpr"], ["conv", "bitf", "calls", "init", "saddr", "ncast"]][index % 4]
     units = []
     for k in kinds:
         if k == "conv":
@@ -1204,4 +1394,5 @@ def gen_program(rng, index, pair_cursor):
         elif k == "calls": units.append(g.unit_calls())
         elif k == "fcexpr": units.append(g.unit_fcexpr())
         elif k == "saddr": units.append(g.unit_saddr(index // 2))
+        elif k == "ncast": units.append(g.unit_ncast(index // 2))
     return units
